@@ -84,3 +84,42 @@ def stats(case, obs, dist):
             dist[key] = dist.get(key, 0) + 1
         n += len(items)
     dist['cls_' + case['cls']] = dist.get('cls_' + case['cls'], 0) + 1
+
+
+def extra_checks(tier, seed):
+    """hierarchical configurations (nested and parallel states): every position of the non-failing trace of
+    generated hierarchical cases as the single raising callback, on the synchronous hierarchical classes, compared
+    with the Coq hierarchical engine (Hsm.v); the continuation of the history runs on the survivor."""
+    import hsm
+    n = 120 if tier == 'quick' else 3000
+    bases = []
+    for i in range(n):
+        rng = random.Random('C04h-%d-%d' % (seed, i))
+        c = hsm.gen_case(rng, hist_len=rng.randint(1, 4), p_parallel=0.35)
+        c['history'] = [(0, e, a) for (k, e, a) in c['history'] if e < 50]
+        bases.append(c)
+    obs = F.run_model(3, [hsm.enc_case(c) for c in bases])
+    cases = []
+    for i, (c, o) in enumerate(zip(bases, obs)):
+        rng = random.Random('C04hx-%d-%d' % (seed, i))
+        items = [it for step in o[2] for it in step[0]]
+        ks = list(range(len(items)))
+        if tier == 'quick' and len(ks) > 6:
+            ks = sorted(rng.sample(ks, 6))
+        for k in ks:
+            cc = copy.deepcopy(c)
+            cc['env']['bypos'][k] = (bool(items[k][6]), (3 + (k + i) % 2, 7), [])
+            cc['cls'] = ['HierarchicalMachine', 'LockedHierarchicalMachine', 'HierarchicalGraphMachine'][(i + k) % 3]
+            cc['crash'] = k
+            cases.append(cc)
+    mo, io = hsm.run_pairs(cases)
+    bad = [(c, hsm.mask_handled(c, m), hsm.mask_handled(c, i)) for c, m, i in zip(cases, mo, io)
+           if hsm.mask_handled(c, m) != hsm.mask_handled(c, i)]
+    detail = dict(cases=len(cases), base_cases=len(bases), disagreements=len(bad),
+                  slots_crashed=sorted({flat.SLOTS[it[0]] for c, o in zip(cases, mo) for st in o[2] for it in st[0][-1:]})[:15])
+    if bad:
+        c, m, i = bad[0]
+        return [('hierarchical_crash_points', False, detail,
+                 dict(kind='counterexample', stream='hierarchical', case=c, model_obs=m, impl_obs=i,
+                      note='hierarchical crash-point stream (Hsm.v vs the real hierarchical classes)'))]
+    return [('hierarchical_crash_points', True, detail, {})]
